@@ -91,11 +91,31 @@ def index_vars(name):
     return out
 
 
+def path_parts(name):
+    """Variables and proper prefix paths the location of a qualified name goes through (`o.a[i]` -> {'o', 'o.a', 'i'})."""
+    try:
+        node = ast.parse(name, mode='eval').body
+    except SyntaxError:
+        return set()
+    out = set()
+    while isinstance(node, (ast.Attribute, ast.Subscript)):
+        if isinstance(node, ast.Subscript):
+            for m in ast.walk(node.slice):
+                if isinstance(m, ast.Name):
+                    out.add(m.id)
+        node = node.value
+        try:
+            out.add(ast.unparse(node))
+        except Exception:  # noqa
+            pass
+    return out
+
+
 def dependent_entries(names):
-    """Finding class `state_entry_indexes_by_state_entry` (Lean: dependentEntries): the location of some entry of the
-    tuple depends on a variable that the same tuple rewrites."""
-    simple = {n for n in names if not is_composite(n)}
-    return any(index_vars(n) & simple for n in names if is_composite(n))
+    """Finding class `state_entry_indexes_by_state_entry` (Lean: dependentAt / staticDependent): the location of some
+    entry of the tuple goes through a variable or a proper prefix path that the same tuple rewrites."""
+    ns = set(names)
+    return any(path_parts(n) & ns for n in names if is_composite(n))
 
 
 class Instrument(object):
@@ -248,10 +268,16 @@ class Instrument(object):
     def check_state(self, op, frame, get_state, set_state, names, callbacks, nouts=None, opts=None):
         self.count('calls:' + op)
         ctx = {'op': op, 'names': names}
+        self.count('clause:names_are_strings')
         if not (isinstance(names, tuple) and all(isinstance(n, str) for n in names)):
             self.fail('symbol_names is not a tuple of str', None, **ctx)
             return
+        self.count('clause:distinct')
+        if len(set(names)) != len(names):
+            self.fail('a variable occurs twice in symbol_names', None, **ctx)
         # arity
+        self.count('clause:arity')
+        self.check_callbacks(op, names, callbacks, ctx)
         for label, fn, want in [('get_state', get_state, 0), ('set_state', set_state, 1)] + callbacks:
             if fn is None:
                 continue
@@ -260,6 +286,7 @@ class Instrument(object):
                 self.fail('%s takes %s parameters, documented %d' % (label, got, want), None, **ctx)
         # nouts
         if op == 'if_stmt':
+            self.count('clause:nouts_bounds')
             if not (isinstance(nouts, int) and not isinstance(nouts, bool) and 0 <= nouts <= len(names)):
                 self.fail('nouts out of bounds', None, nouts=nouts, **ctx)
         # opts
@@ -276,13 +303,22 @@ class Instrument(object):
             return
         missing = [n for n, b in zip(names, before) if isinstance(b, _Missing) and is_composite(n)]
         cls = 'missing_composite_written_back' if missing else None
+        self.count('clause:lengths')
         if not isinstance(s1, tuple) or len(s1) != len(names):
             self.fail('len(symbol_names) != len(get_state())', None, state=s1, **ctx)
             return
+        # the class of (state tuple, store) of this invocation: exactly one (Lean: classify)
+        undefined_roots = [n for n in names if is_composite(n) and self.root_is_undefined(frame, n)]
+        pyclass = ('undefinedBase' if undefined_roots else 'missingComposite' if missing
+                   else 'dependent' if dependent_entries(names) else 'aliased' if self.aliased(frame, names) else 'lawful')
+        self.count('class:' + pyclass)
+        nfail0 = sum(v for k, v in self.counts.items() if k.startswith('fail:'))
+        self.count('clause:positions')
         if not self.matches_frame(s1, before, names):
             self.fail('get_state()[i] is not the caller-frame value of symbol_names[i]', None, state=s1, frame=before, **ctx)
         dirty = False
         try:
+            self.count('clause:get_pure')
             s2 = get_state()
             mid = self.frame_vals(frame, names)
             if not self.same_tuple(s1, s2) or not self.same_tuple(before, mid) or self.log_len(frame) != n0:
@@ -293,6 +329,7 @@ class Instrument(object):
                 self.count('set_probes_skipped_unevaluable_name')
                 return
             # (*) write back what was just read
+            self.count('clause:get_set')
             dirty = True
             set_state(s1)
             s3 = get_state()
@@ -308,6 +345,8 @@ class Instrument(object):
             # write then read
             aliased = self.aliased(frame, names)
             vs = tuple(Sentinel(i) for i in range(len(names)))
+            self.count('clause:set_get')
+            self.count('clause:setter_reaches_caller_variables')
             set_state(vs)
             s4 = get_state()
             f4 = self.frame_vals(frame, names)
@@ -330,6 +369,8 @@ class Instrument(object):
                       'composite_base_undefined' if roots_undefined else cls, error=e, missing=missing,
                       undefined_roots=roots_undefined, **ctx)
         finally:
+            if pyclass == 'lawful' and sum(v for k, v in self.counts.items() if k.startswith('fail:')) != nfail0:
+                self.count('FAILURE-IN-LAWFUL-CLASS')
             try:
                 if dirty:
                     self.restore(frame, set_state, s1, names, before, conts)
@@ -339,7 +380,26 @@ class Instrument(object):
             except Exception as e:  # noqa
                 self.count('RESTORE-RAISED:' + type(e).__name__)
 
+    def check_callbacks(self, op, names, callbacks, ctx):
+        """The callbacks write caller-visible variables only through the declared names: every store of the body / orelse /
+        extra_test code to a free (closure) variable or to a global is a store to a simple state variable; the `test`
+        function of a while_stmt stores to none.  (A store to a local of the callback, or to a cell it owns, is its own.)"""
+        import dis
+        self.count('clause:callbacks_write_only_declared_names')
+        simple = {n for n in names if not is_composite(n)}
+        for label, fn, _ in callbacks:
+            code = getattr(fn, '__code__', None)
+            if code is None:
+                continue
+            free = set(code.co_freevars)
+            for ins in dis.get_instructions(code):
+                if ins.opname in ('STORE_DEREF', 'DELETE_DEREF') and ins.argval in free or ins.opname in ('STORE_GLOBAL', 'DELETE_GLOBAL'):
+                    if label == 'test' or ins.argval not in simple:
+                        self.fail('%s writes %s, which is not a declared state variable' % (label, ins.argval), None, **ctx)
+                        return
+
     def check_opts(self, op, opts, ctx):
+        self.count('clause:opts')
         if not isinstance(opts, dict):
             self.fail('opts is not a dict', None, opts=opts, **ctx)
             return
